@@ -981,6 +981,58 @@ func c14AliasWitness() *c14Gram {
 	return g
 }
 
+const c14ShortToken = "[C14-la-entry-shortcircuit]"
+
+// c14ShortWitness: `%lookahead flag L; N0: N<+L> | 'd' U<~L>; N: T 'c' | [L] 'd' 'd'; T: X 'c'; X: %empty | U; U: [L] 'a' | 'b';`
+// With `X: U | %empty` the compiler reports "cannot propagate lookahead flag L through nonterminal X"; in this
+// order entryPoints stops scanning X at the empty alternative, the grammar compiles and L silently does not reach U.
+func c14ShortWitness() *c14Gram {
+	g := &c14Gram{NT: 5, Feat: map[string]bool{}}
+	g.Params = []c14Param{{Name: "L", Dflt: -1, LA: true, Global: true}}
+	l := &c14Pred{Op: 'E', P: 0, V: 1}
+	g.NTs = []c14NT{
+		{Name: "N0", Alts: []c14Alt{
+			{RHS: []c14Sym{{NT: 1, Args: []c14Arg{{Param: 0, X: 1}}}}},
+			{RHS: []c14Sym{{Term: 4}, {NT: 4, Args: []c14Arg{{Param: 0, X: 0}}}}},
+		}},
+		{Name: "N", Alts: []c14Alt{
+			{RHS: []c14Sym{{NT: 2}, {Term: 3}}},
+			{Pred: l, PredText: "L", RHS: []c14Sym{{Term: 4}, {Term: 4}}},
+		}},
+		{Name: "T", Alts: []c14Alt{{RHS: []c14Sym{{NT: 3}, {Term: 3}}}}},
+		{Name: "X", Alts: []c14Alt{{}, {RHS: []c14Sym{{NT: 4}}}}},
+		{Name: "U", Alts: []c14Alt{
+			{Pred: l, PredText: "L", RHS: []c14Sym{{Term: 1}}},
+			{RHS: []c14Sym{{Term: 2}}},
+		}},
+	}
+	g.Inputs = []c14In{{NT: 0, Eoi: true}}
+	return g
+}
+
+// c14ShortClass: the grammar has lookahead flags and some nonterminal has an alternative that starts with a
+// nonterminal reference AFTER an empty alternative (entryPoints never looks at it).
+func c14ShortClass(g *c14Gram) bool {
+	la := false
+	for _, p := range g.Params {
+		la = la || p.LA
+	}
+	if !la {
+		return false
+	}
+	for _, nt := range g.NTs {
+		empty := false
+		for _, a := range nt.Alts {
+			if len(a.RHS) == 0 {
+				empty = true
+			} else if empty && a.RHS[0].Term == 0 {
+				return true
+			}
+		}
+	}
+	return false
+}
+
 func c14ParseProto(p string) (*Gram, bool) {
 	f := strings.Fields(p)
 	if len(f) != 6 {
@@ -1143,7 +1195,32 @@ func c14(c *Ctx) {
 		}
 	}
 
-	n := c.N(260, 3000)
+	// probe for the entryPoints short-circuit
+	shortDefect := false
+	{
+		g := c14ShortWitness()
+		ans := w.call(g.TM("c14short"))
+		if strings.HasPrefix(ans, "ok ") {
+			if real, ok := c14ParseProto(strings.TrimPrefix(ans, "ok ")); ok && len(real.Inputs) > 0 {
+				shortDefect = !real.Derives(real.Inputs[0].Sym, []int{1, 3, 3}) // "acc"
+			}
+		}
+		c.Extra["la_entry_shortcircuit_probe_failed"] = shortDefect
+		if shortDefect {
+			c.Notes = append(c.Notes, "probe FAILED on the real compiler: `"+c14OneLine(g.TM("c14short"))+"` compiles and rejects `acc` (with `X : U | %empty` it is "+
+				"rejected with \"cannot propagate lookahead flag L through nonterminal X\"): entryPoints' `ret = ret && entryPoints(c)` stops at the first empty "+
+				"alternative, later alternatives are never scanned, the flag silently does not reach U "+c14ShortToken)
+			c.Rule += " AVOIDED CLASS (finding " + c14ShortToken + ", probe failed): grammars with lookahead flags in which an alternative starting with a nonterminal " +
+				"comes after an empty alternative of the same nonterminal are compared structurally only (`instq`: the mirror reproduces the scan order; no certificate, " +
+				"no semantic comparison); VERIF_FINDINGS=1 includes and flags them."
+			if findings {
+				c.Violate(c14ShortToken+" a lookahead flag is silently dropped behind an empty alternative: input N0: `acc` is in the template language but is NOT derivable in the instantiated rules",
+					c14ShortToken+" "+c14OneLine(g.TM("c14short"))+" :: acc")
+			}
+		}
+	}
+
+	n := c.N(400, 40000)
 	for i := 0; i < n; i++ {
 		cfg := c14Cfg{bad: 0.01}
 		if i%7 == 3 {
@@ -1206,7 +1283,15 @@ func c14(c *Ctx) {
 			c.Count("feature disabled-alternative")
 		}
 		c.Count(fmt.Sprintf("instances %d", real.NN))
-		c.Case("inst "+src+" :: "+proto, "match", key)
+		short := shortDefect && c14ShortClass(g)
+		if short {
+			c.Count("entry-shortcircuit-class grammars")
+		}
+		if short && !findings {
+			c.Case("instq "+src+" :: "+proto, "match", key)
+		} else {
+			c.Case("inst "+src+" :: "+proto, "match", key)
+		}
 
 		dead := s.anyDead()
 		if dead {
@@ -1216,13 +1301,15 @@ func c14(c *Ctx) {
 		if g.NT == 3 {
 			L = 6
 		}
-		if !dead || findings {
+		if (!dead && !short) || findings {
 			bad, why := c14Semantic(g, s, real, L)
 			c.Count("semantic comparisons")
 			if why != "" {
 				tok := ""
 				if dead {
 					tok = c14DeadToken + " "
+				} else if short {
+					tok = c14ShortToken + " "
 				}
 				c.Violate(tok+"template instantiation changed the language: "+why, tok+c14OneLine(text)+" :: "+bad)
 			}
